@@ -823,6 +823,18 @@ fn check_csv_files(rep: &mut Report, dir: &std::path::Path) {
         let st3 = AnnotationStore::from_file(path.to_str().unwrap(), Config::default()).map_err(e)?;
         Ok((want, describe(&st3)))
     });
+    run(rep, "loaded-store-gets-a-new-dataset", "a CSV store loaded from its directory, one annotation added with data in a dataset that is new, saved again and read back", &|sub| {
+        let mut st = AnnotationStore::default().with_id("s").with_resource(TextResourceBuilder::new().with_id("r").with_text("hello world")).map_err(e)?;
+        st.annotate(AnnotationBuilder::new().with_id("a1").with_target(SelectorBuilder::textselector("r", Offset::simple(0, 5))).with_data_with_id("set", "k", "v", "d1")).map_err(e)?;
+        let path = sub.join("x.store.stam.csv");
+        st.to_file(path.to_str().unwrap()).map_err(e)?;
+        let mut st2 = AnnotationStore::from_file(path.to_str().unwrap(), Config::default()).map_err(e)?;
+        st2.annotate(AnnotationBuilder::new().with_id("a2").with_target(SelectorBuilder::textselector("r", Offset::simple(6, 11))).with_data_with_id("otherset", "k", "w", "d2")).map_err(e)?;
+        let want = describe(&st2);
+        st2.save().map_err(e)?;
+        let st3 = AnnotationStore::from_file(path.to_str().unwrap(), Config::default()).map_err(e)?;
+        Ok((want, describe(&st3)))
+    });
     run(rep, "resource-names-that-share-a-stem", "two in-memory resources whose identifiers share a stem (notes.txt, notes.md), saved as CSV and read back", &|sub| {
         let mut st = AnnotationStore::default().with_id("s").with_resource(TextResourceBuilder::new().with_id("notes.txt").with_text("first text")).map_err(e)?.with_resource(TextResourceBuilder::new().with_id("notes.md").with_text("second text")).map_err(e)?;
         st.annotate(AnnotationBuilder::new().with_id("a1").with_target(SelectorBuilder::textselector("notes.txt", Offset::simple(0, 5))).with_data_with_id("set", "k", "v", "d1")).map_err(e)?;
